@@ -408,10 +408,51 @@ fn run_job(args: &Args, job: &Value, seq: usize) -> Value {
         }
     }
     let procfs: Option<Arc<ProcfsHandle>> = if k.starts_with("proc_") {
-        match job.get("handle").and_then(|h| h.as_str()).unwrap_or("new") {
-            "new" => ProcfsHandle::new().ok().map(Arc::new),
-            "unsafe_open" => std::fs::File::open("/proc").ok().and_then(|f| ProcfsHandle::try_from_fd(f).ok()).map(Arc::new),
-            _ => None,
+        // the handle is built inside a traced region so that its descriptor,
+        // mount id and subset flag can be read off the trace (model parameter)
+        let hk = job.get("handle").and_then(|h| h.as_str()).unwrap_or("new").to_string();
+        let hdeny: Vec<i64> = {
+            let mut d = args.deny.clone();
+            if let Some(extra) = job.get("handle_deny").and_then(|h| h.as_array()) {
+                for n in extra {
+                    match n.as_str().unwrap_or("") {
+                        "fsopen" => d.push(libc::SYS_fsopen),
+                        "open_tree" => d.push(libc::SYS_open_tree),
+                        "statx" => d.push(libc::SYS_statx),
+                        _ => {}
+                    }
+                }
+            }
+            d
+        };
+        let (res, htrace) = sup::traced(
+            move || match hk.as_str() {
+                "unsafe_open" => std::fs::File::open("/proc")
+                    .map_err(|e| e.to_string())
+                    .and_then(|f| ProcfsHandle::try_from_fd(f).map_err(|e| e.to_string())),
+                _ => ProcfsHandle::new().map_err(|e| e.to_string()),
+            },
+            |_i, nr, _a, _ev| {
+                if hdeny.contains(&nr) {
+                    Verdict::Inject(libc::ENOSYS)
+                } else {
+                    Verdict::Execute
+                }
+            },
+        );
+        out["handle_trace"] = json!(htrace.events);
+        match res {
+            Ok(Ok(h)) => Some(Arc::new(h)),
+            Ok(Err(e)) => {
+                out["res"] = json!({"setup_err": e});
+                let _ = std::fs::remove_dir_all(&sb);
+                return out;
+            }
+            Err(_) => {
+                out["res"] = json!({"setup_err": "panic building procfs handle"});
+                let _ = std::fs::remove_dir_all(&sb);
+                return out;
+            }
         }
     } else {
         None
@@ -561,6 +602,9 @@ fn main() {
         writeln!(outf, "{}", json!({"id": "warmup", "res": r, "trace": trace.events,
                                     "fds_after": tree::fd_table(&[])})).unwrap();
     }
+    // the placeholder root used by proc_* jobs is opened outside the jobs' traced regions
+    // (but after the warm-up, so that feature detection has seen the denied calls)
+    let _ = unreachable_root();
     for (seq, line) in std::io::BufReader::new(f).lines().enumerate() {
         let line = line.unwrap();
         if line.trim().is_empty() {
